@@ -189,6 +189,7 @@ def lemma_copy_file(ctx):
     meta = handle.attrs[("f", None, ctx.field("CopyHandle", "metadata"))]
     length = eng.fresh_int(st, "u64", "src_len")
     meta.attrs["len"] = length
+    meta.attrs["blocks"] = eng.fresh_int(st, "u64", "src_st_blocks")
     st.ghost["len"] = length
     paths = eng.run(fn.name, [RefV(Cell(handle)), upd], st)
     ctx.paths += len(paths)
@@ -230,6 +231,13 @@ def lemma_copy_file(ctx):
             else:
                 ctx.lemma(eng, "C15: error without a failed call only for always + unsupported clone", p.pc,
                           z3.And(is_always, z3.Not(worked)), info={"trace": names})
+        if is_ok(p.ret) and (cb or cs):
+            # C11: the hole-skipping path is taken exactly for sources that look sparse (st_blocks < st_size/512)
+            looks = meta.attrs["blocks"].t < meta.attrs["len"].t / 512
+            if cs:
+                ctx.lemma(eng, "C11: the segment-walking (hole-skipping) copy is used only for sources that look sparse", p.pc, looks, info={"trace": names})
+            else:
+                ctx.lemma(eng, "C11: a source that looks sparse (st_blocks < st_size/512) is always copied with the hole-skipping path", p.pc, z3.Not(looks), info={"trace": names})
         if is_ok(p.ret):
             ctx.lemma(eng, "C01: copy_file reports the source length", p.pc, p.ret.fields[0].t == length.t)
             for e in cb:
